@@ -100,29 +100,29 @@ Print Assumptions C12_tie_publish_qos12.
    output queue and a transport that ACCEPTS writes, REFUSES them (BlockingIOError) or FAILS HARD (OSError: the
    connection is torn down inside the write) are modelled; events distinguish a packet
    HANDED to the connection from a packet WRITTEN; reconnect() drops what is still queued.
-   [no_fail ops]: the history contains no hard write failure ([OTransport TFail]). *)
+   Every theorem below quantifies over ALL conforming histories, hard write failures included. *)
 From PahoV Require Import Session2.Model Session2.Check Session2.Statements Session2.LInv Session2.Inv Session2.C12Proofs.
 
 (* window bound on packets WRITTEN on the current connection *)
 Theorem C12_window_written_with_blocking : forall c ops,
-  cfg_ok c = true -> conforming c ops = true -> no_fail ops = true -> c12_window_ok c (optrace c ops) = true.
-Proof. exact c12_window_calm_proved. Qed.
+  cfg_ok c = true -> conforming c ops = true -> c12_window_ok c (optrace c ops) = true.
+Proof. exact c12_window_proved. Qed.
 Print Assumptions C12_window_written_with_blocking.
 
 (* the stronger bound on packets HANDED to the connection (queued or written) *)
 Theorem C12_window_handed_with_blocking : forall c ops,
-  cfg_ok c = true -> conforming c ops = true -> no_fail ops = true -> c12_handed_ok c (optrace c ops) = true.
-Proof. exact c12_handed_calm_proved. Qed.
+  cfg_ok c = true -> conforming c ops = true -> c12_handed_ok c (optrace c ops) = true.
+Proof. exact c12_handed_proved. Qed.
 Print Assumptions C12_window_handed_with_blocking.
 
 (* queue bound *)
 Theorem C12_queue_bound_with_blocking : forall c ops,
-  cfg_ok c = true -> conforming c ops = true -> no_fail ops = true -> c12_queue_ok c (optrace c ops) = true.
-Proof. exact c12_queue_calm_proved. Qed.
+  cfg_ok c = true -> conforming c ops = true -> c12_queue_ok c (optrace c ops) = true.
+Proof. exact c12_queue_proved. Qed.
 Print Assumptions C12_queue_bound_with_blocking.
 
-(* EVERY conforming history, hard write failures included (publish() taking its message out of the window again,
-   the CONNACK retransmission loop stopping at the failed write): the counter _inflight_messages never exceeds the
+(* the state-level form (publish() taking its message out of the window again, the CONNACK retransmission loop
+   stopping at the failed write, ...): the counter _inflight_messages never exceeds the
    window, and on an established connection no stored message waits while a slot is free *)
 Theorem C12_counter_bounded_with_failing_writes : forall c ops, cfg_ok c = true -> conforming c ops = true ->
   let s := fst (run c ops) in 0 < c_max c -> 0 <= inflight s <= c_max c.
